@@ -54,6 +54,18 @@ def cases(tier, rng):
         r = rng.random()
         sc = None if r < 0.3 else ({"root": rand_hex(rng, 32)} if r < 0.5 else rand_tree(rng, depth=2))
         yield {"k": "addr", "key": key, "sc": sc}
+    # ... and a few found by search, so that every run has them
+    found = tries = 0
+    while found < (4 if tier == "quick" else 24) and tries < 20000:
+        tries += 1
+        key = rng.randrange(1, N); sc = None if tries % 2 else rand_tree(rng, depth=2)
+        try:
+            root = b"" if sc is None else refbip341.root_and_paths(tree_ref(sc))[0]
+        except Exception:
+            continue
+        if refbip341.output(key, root)[0][0] != 0: continue
+        found += 1
+        yield {"k": "addr", "key": key, "sc": sc}
     # index out of range and malformed trees: out of the property's domain, model mirrors
     t3 = {"list": [{"leaf": [["op", "OP_1"]]}, {"leaf": [["op", "OP_2"]]}, {"leaf": [["op", "OP_3"]]}]}
     yield {"k": "addr", "key": 5, "sc": t3, "dom": False}
